@@ -2,7 +2,10 @@
 
 package internal
 
-import "time"
+import (
+	"context"
+	"time"
+)
 
 // C19 — no data races in the default configuration. The executor attaches vector clocks to threads and
 // last-access epochs to every heap cell it loads or stores (happens-before edges: mutex release->acquire,
@@ -51,6 +54,21 @@ func ZZ_C19_Pairs() {
 	case 6: // Wait || Set
 		a(func() { s.Wait() })
 		a(func() { s.Set(3, 300, 1, 0) })
+	case 7: // SaveCache || Set / Delete
+		a(func() { _ = s.Persist(1, vfGhostStream()) })
+		a(func() { s.Set(1, 103, 2, 0); s.Delete(2); s.Set(3, 300, 1, 0) })
+	case 8: // SaveCache || tick (expiry)
+		vfClockSet(origin + 1<<31)
+		vfFireTickers()
+		a(func() { _ = s.Persist(1, vfGhostStream()) })
+		a(func() { s.Get(2) })
+	case 9: // loading Get || Delete / Set on the same key
+		ls := NewLoadingStore(s)
+		ls.Loader(func(ctx context.Context, key uint64) (Loaded[uint64], error) {
+			return Loaded[uint64]{Value: 5, Cost: 1}, nil
+		})
+		a(func() { _, _ = ls.Get(context.Background(), 7); _, _ = ls.Get(context.Background(), 1) })
+		a(func() { s.Delete(1); s.Set(7, 700, 1, 0) })
 	}
 	<-done
 	<-done
